@@ -770,6 +770,9 @@ class Model:
             Self: The instance of the model with the parameter removed.
 
         """
+        if name not in self._parameters:
+            msg = f"'{name}' not found in parameters"
+            raise KeyError(msg)
         self._remove_id(name=name)
         self._parameters.pop(name)
         return self
@@ -1122,6 +1125,9 @@ class Model:
             Self: The instance of the model with the variable removed.
 
         """
+        if name not in self._variables:
+            msg = f"'{name}' not found in variables"
+            raise KeyError(msg)
         if remove_stoichiometries:
             for rxn in self._reactions.values():
                 if name in rxn.stoichiometry:
@@ -1438,6 +1444,9 @@ class Model:
             Self: The instance of the model with the derived attribute removed.
 
         """
+        if name not in self._derived:
+            msg = f"'{name}' not found in derived"
+            raise KeyError(msg)
         self._remove_id(name=name)
         self._derived.pop(name)
         return self
@@ -1670,6 +1679,9 @@ class Model:
             Self: The instance of the model with the reaction removed.
 
         """
+        if name not in self._reactions:
+            msg = f"'{name}' not found in reactions"
+            raise KeyError(msg)
         self._remove_id(name=name)
         self._reactions.pop(name)
         return self
@@ -1767,6 +1779,9 @@ class Model:
             Self: The instance of the class after the readout has been removed.
 
         """
+        if name not in self._readouts:
+            msg = f"'{name}' not found in readouts"
+            raise KeyError(msg)
         self._remove_id(name=name)
         del self._readouts[name]
         return self
@@ -1875,6 +1890,9 @@ class Model:
             Self: The instance of the model with the specified surrogate model removed.
 
         """
+        if name not in self._surrogates:
+            msg = f"Surrogate '{name}' not found in model"
+            raise KeyError(msg)
         self._remove_id(name=name)
         surrogate = self._surrogates.pop(name)
         for output in surrogate.outputs:
@@ -1937,6 +1955,9 @@ class Model:
 
     def remove_data(self, name: str) -> Self:
         """Remove data set from model."""
+        if name not in self._data:
+            msg = f"'{name}' not found in data"
+            raise KeyError(msg)
         self._remove_id(name=name)
         self._data.pop(name)
         return self
